@@ -405,7 +405,11 @@ def addAsymmetricMigration (g : Graph) (sourceV destV rateV : Value)
   let endTime ← nonNegFiniteQ endV
   let rate ← unitQ rateV
   if source = dest then valueErr "source and dest cannot be the same deme"
-  if !(ETime.fin endTime < startTime) then valueErr "must have start_time > end_time" else
+  if !(ETime.fin endTime < startTime) then valueErr "must have start_time > end_time"
+  -- no other migration for the same ordered pair may overlap it in time
+  if g.migrations.any (fun o => o.source = source && o.dest = dest
+      && decide (ETime.fin endTime < o.startTime) && decide (ETime.fin o.endTime < startTime)) then
+    valueErr s!"multiple migrations defined for source={source}, dest={dest}"
   pure { g with migrations := g.migrations ++ [{ source, dest, startTime, endTime, rate }] }
 
 /-- `itertools.permutations(xs, 2)` -/
